@@ -1,5 +1,4 @@
-(* TEMPORARY (builder's): the coordinator replaces this file with the assembly of c13_entry *)
-From Verif Require Import Base.Sx Model.Actions.Entry.
+From Verif Require Import Base.Sx Model.C13Full.
 From Coq Require Import Extraction ExtrOcamlBasic.
-Definition run := c13_actions_entry.
+Definition run := c13_full_entry.
 Extraction "model.ml" run.
